@@ -744,6 +744,13 @@ def ob_wig_block_r(ctx, res):
             start_o = _local_init(lp[0]["body"], v.get("start"))
             end_o = _local_init(lp[0]["body"], v.get("end"))
             incs = [n for n in walk_no_nested_fn(lp[0]["body"]) if n.k == "binary" and n["op"] == "+=" and cur and up(strip(n["l"])) == cur]
+            # `cursor = cursor.saturating_add(step)` is the same advance (the value after the last item is never used)
+            sat = [n for n in walk_no_nested_fn(lp[0]["body"]) if n.k == "assign" and cur and up(strip(n["l"])) == cur and strip(n["r"]).k == "mcall"
+                   and strip(n["r"])["method"] in ("saturating_add", "wrapping_add") and up(strip(strip(n["r"])["recv"])) == cur]
+            if not incs and len(sat) == 1:
+                incs = [Node({"k": "binary", "op": "+=", "l": sat[0]["l"], "r": strip(sat[0]["r"])["args"][0], "sp": sat[0]["sp"]})]
+                incs[0].order = sat[0].order
+                incs[0].parent = sat[0].parent
             if cur is None or start_o != cur or len(incs) != 1 or up(strip(incs[0]["r"])) != H["itemStep"] or \
                     end_o not in ("%s + %s" % (v.get("start"), H["itemSpan"]), "%s + %s" % (H["itemSpan"], v.get("start"))):
                 res.fail("wigItem3/value", a3, "fixed-step value i must be {start = chromStart + i*itemStep, end = start + itemSpan}; "
